@@ -126,6 +126,9 @@ func main() {
 		fuc = append(fuc, ct.Name)
 		for k, v := range c.notes {
 			notes[ct.Name+": "+k] += v
+			if *verbose {
+				fmt.Printf("note %s: %s (x%d)\n", ct.Name, k, v)
+			}
 		}
 		for k := range c.usedContracts {
 			usedContracts[k] = true
